@@ -14,7 +14,7 @@ import time
 import lib
 
 INVARIANTS = ["TypeOK", "RegistryInverse", "RegistryIsDeclared", "ClosureLaws", "PointLaws", "GrowLaws", "PeelLaws",
-              "BfsLaws", "HelperLaws", "SpecLaws"]
+              "BfsLaws", "HelperLaws", "SpecLaws", "CodeFormDeviatesOnlyInClasses"]
 ACTIONS = ["Define", "EndDefine", "AddDep", "EndAdds", "Ask", "GrowStart", "GrowSpread", "GrowYield", "GrowEnd",
            "Peel", "PeelEnd", "Bfs", "BfsEnd"]
 ALL_LABELS = ["none", "req", "g1", "g2", "opt", "req+opt", "g1+g2", "g1+opt"]
@@ -24,10 +24,11 @@ ALL_ASK = ["basic", "sub", "topo", "walk", "help", "specs"]
 
 
 def fam(Fam="prog", MinN=3, N=3, KindSet=("comp",), TypSet=("base",), GrpSet=(1,), LabelSet=("none", "req"),
-        PrioSet=(1,), MaxAdds=0, AskSet=("basic", "sub", "topo", "walk"), KeyMode="any", sim=None, depth=None):
+        PrioSet=(1,), MaxAdds=0, AskSet=("basic", "sub", "topo", "walk"), KeyMode="any", sim=None, depth=None,
+        Prefix="NoPrefix", WalkMech="bfs"):
     return dict(Fam=Fam, MinN=MinN, N=N, KindSet=list(KindSet), TypSet=list(TypSet), GrpSet=list(GrpSet),
                 LabelSet=list(LabelSet), PrioSet=list(PrioSet), MaxAdds=MaxAdds, AskSet=list(AskSet), KeyMode=KeyMode,
-                sim=sim, depth=depth)
+                sim=sim, depth=depth, Prefix=Prefix, WalkMech=WalkMech)
 
 
 FAMILIES = {
@@ -43,6 +44,9 @@ FAMILIES = {
         ("help3", fam(N=3, LabelSet=FIVE, AskSet=("help",))),
         # get_dependency_specs: components over registry points, every required / at-least-one shape
         ("specs4", fam(N=4, MinN=3, KindSet=("comp", "point"), LabelSet=("none", "req", "g1"), AskSet=("specs",))),
+        # ... and over two registry points with a parser each (what rules are written over): two more components
+        # and a condition with both kinds of requirement: every sixth component
+        ("specs6", fam(N=6, MinN=6, LabelSet=("none", "req", "g1"), AskSet=("specs",), Prefix="CondPrefix")),
         ("raw3", fam(Fam="raw", N=3)),
         ("sim7", fam(N=7, MinN=4, KindSet=("comp", "comp", "ds", "point"), TypSet=("base", "sub"), GrpSet=(1, 2),
                      LabelSet=FIVE, PrioSet=(0, 1, 2), MaxAdds=3, AskSet=ALL_ASK, sim=700, depth=80)),
@@ -59,6 +63,8 @@ FAMILIES = {
                        AskSet=("basic",))),
         ("help3", fam(N=3, LabelSet=ALL_LABELS, AskSet=("help",))),
         ("specs4", fam(N=4, MinN=3, KindSet=("comp", "point"), LabelSet=("none", "req", "g1", "g2"), AskSet=("specs",))),
+        ("specs6", fam(N=6, MinN=6, LabelSet=FIVE, AskSet=("specs",), Prefix="CondPrefix")),
+        ("specs6p", fam(N=6, MinN=6, LabelSet=("none", "req", "g1"), AskSet=("specs",), Prefix="ParserPrefix")),
         ("specs3ds", fam(N=3, KindSet=("comp", "ds", "point"), LabelSet=FIVE, MaxAdds=1, AskSet=("specs",))),
         ("raw3", fam(Fam="raw", N=3)),
         ("raw4", fam(Fam="raw", N=4)),
@@ -66,11 +72,22 @@ FAMILIES = {
                      LabelSet=FIVE, PrioSet=(0, 1, 2), MaxAdds=4, AskSet=ALL_ASK, sim=12000, depth=100)),
     ]),
 }
+# transcriptions of the code: TLC must REFUTE the named invariant (one counterexample per recorded finding)
+REFUTE = collections.OrderedDict([
+    ("walk-depth-first", ("BfsLaws", fam(N=4, MinN=4, AskSet=("walk",), WalkMech="dfs"))),
+    ("specs-spec-in-group", ("F_CodeRight_SpecInGroup", fam(N=3, MinN=2, KindSet=("comp", "point"),
+                                                            LabelSet=("none", "req", "g1"), AskSet=("specs",)))),
+    ("specs-odd-member", ("F_CodeRight_OddMember", fam(N=3, MinN=2, KindSet=("comp", "point"),
+                                                        LabelSet=("none", "req", "g1"), AskSet=("specs",)))),
+    ("specs-absorbed", ("F_CodeRight_Absorbed", fam(N=6, MinN=6, LabelSet=("none", "req", "g1"), AskSet=("specs",),
+                                                     Prefix="CondPrefix"))),
+])
+THOROUGH_ONLY = ()
 # replayed cases per family and question (the model runs stay exhaustive; the replay takes a VERIF_SEED sample)
 CAP = {"quick": {"basic": 450, "sub": 900, "topo": 900, "walk": 500, "help": 900, "specs": 8000, "none": 729},
        "thorough": {"basic": 10 ** 7, "sub": 60000, "topo": 60000, "walk": 30000, "help": 20000, "specs": 60000,
                     "none": 10 ** 7}}
-NVAR = {"quick": 1, "thorough": 2}
+NVAR = {"quick": 1, "thorough": 1}
 NSELF = {"quick": 120, "thorough": 600}
 
 # what a run must have exercised (vacuity): stats keys of the driver
@@ -122,7 +139,8 @@ def cfg_text(f, invariants, emit):
              "  KindSet = %s" % tla_set(f["KindSet"]), "  TypSet = %s" % tla_set(f["TypSet"]),
              "  GrpSet = %s" % tla_set(f["GrpSet"]), "  LabelSet = %s" % tla_set(f["LabelSet"]),
              "  PrioSet = %s" % tla_set(f["PrioSet"]), "  MaxAdds = %d" % f["MaxAdds"],
-             "  AskSet = %s" % tla_set(f["AskSet"]), '  KeyMode = "%s"' % f["KeyMode"]]
+             "  AskSet = %s" % tla_set(f["AskSet"]), '  KeyMode = "%s"' % f["KeyMode"],
+             '  WalkMech = "%s"' % f["WalkMech"], "  Prefix <- %s" % f["Prefix"]]
     lines += ["INVARIANT %s" % i for i in invariants]
     if emit:
         lines.append("CONSTRAINT Emit")
@@ -138,6 +156,9 @@ def write_cfgs():
                 if f["sim"]:
                     fh.write("\\* run with -simulate num=%d -depth %d\n" % (f["sim"], f["depth"]))
                 fh.write(cfg_text(f, INVARIANTS, True))
+    for name, (inv, f) in REFUTE.items():
+        with open(os.path.join(lib.SPECS, "DrGraphMC_refute_%s.cfg" % name.replace("-", "_")), "w") as fh:
+            fh.write("\\* a transcription of the code: TLC is EXPECTED to refute %s\n" % inv + cfg_text(f, [inv], False))
 
 
 def model_runs(tier):
@@ -152,19 +173,34 @@ def model_runs(tier):
         if f["sim"]:
             kw.update(simulate=max(1, f["sim"] // kw["workers"]), depth=f["depth"], tlc_seed=lib.seed() + 1)
         jobs.append((name, p, kw))
+    refute = [(n, v) for n, v in REFUTE.items() if tier == "thorough" or n not in THOROUGH_ONLY]
+    for name, (inv, f) in refute:
+        p = os.path.join(gen, "refute_%s.cfg" % name)
+        with open(p, "w") as fh:
+            fh.write(cfg_text(f, [inv], False))
+        jobs.append(("refute-" + name, p, dict(workers=1, light=True)))
     order = {"edges4": 0, "sim8": 0, "kinds4": 0, "labels3": 1, "sim7": 1, "edges4any": 1, "raw4": 1, "kinds3": 2}
     jobs.sort(key=lambda j: order.get(j[0], 3))
 
     def one(job):
         name, cfgp, kw = job
         r = lib.run_tlc("DrGraphMC", cfgp, tag="x05-" + name, timeout=3000, **kw)
-        lib.require_ok(r, "DrGraph model " + name)
+        if not name.startswith("refute-"):
+            lib.require_ok(r, "DrGraph model " + name)
         return name, r
 
     res = collections.OrderedDict()
     with concurrent.futures.ThreadPoolExecutor(max_workers=2 if lib.NCPU >= 4 else 1) as ex:
         for name, r in ex.map(one, jobs):
             res[name] = r
+    refuted = {}
+    for name, (inv, f) in refute:
+        r = res["refute-" + name]
+        if r.violation != inv:
+            raise lib.MachineryError("the transcription of the code (%s) was expected to violate %s; TLC says "
+                                     "violation=%s error=%s\n%s" % (name, inv, r.violation, r.error,
+                                                                     "\n".join(r.out.splitlines()[-30:])))
+        refuted[name] = dict(invariant=inv, refuted=True, states=r.generated)
     cov = {}
     for name in FAMILIES[tier]:
         for a, n in res[name].coverage.items():
@@ -172,13 +208,13 @@ def model_runs(tier):
     missing = [a for a in ACTIONS if not cov.get(a) and not cov.get(a + "Sim")]
     if missing:
         raise lib.MachineryError("vacuity: actions never taken in the model runs: %s (coverage %s)" % (missing, cov))
-    return res, cov
+    return res, refuted, cov
 
 
 # ---------------------------------------------------------------------------
 # binding self-test: corrupt one observed field of an accepted trace
 # ---------------------------------------------------------------------------
-def corrupt(trace, rng):
+def corrupt(trace, rng, used=None):
     """one observation of an accepted trace changed into an answer that is wrong under every reading;
     returns None if the trace offers nothing to corrupt"""
     t = copy.deepcopy(trace)
@@ -231,6 +267,9 @@ def corrupt(trace, rng):
             cands.append((i, e["ev"] + ":cycle-ordered"))
     if not cands:
         return None
+    if used is not None:        # the kinds tried least so far first
+        least = min(used[h] for _, h in cands)
+        cands = [c for c in cands if used[c[1]] == least]
     i, how = rng.choice(cands)
     e = evs[i]
     if how == "deps:extra-dependent":
@@ -304,7 +343,7 @@ def case_features(c):
 def run(prop, tier):
     rng = random.Random(lib.seed())
     t0 = time.time()
-    res, cov = model_runs(tier)
+    res, refuted, cov = model_runs(tier)
     models = [res[n] for n in FAMILIES[tier]]
     cases, emitted = [], {}
     for name in FAMILIES[tier]:
@@ -329,9 +368,9 @@ def run(prop, tier):
                 c["kind"] = "sim" if FAMILIES[tier][name]["sim"] else "enum"
                 cases.append(c)
     nem = sum(sum(v.values()) for v in emitted.values())
-    print("timing: models %.1fs (%d states, %d runs [%s]), %d cases emitted, %d replayed"
+    print("timing: models %.1fs (%d states, %d runs [%s] + %d refutations), %d cases emitted, %d replayed"
           % (time.time() - t0, sum(m.distinct for m in models), len(models),
-             " ".join("%s %.0fs" % (n, res[n].wall) for n in FAMILIES[tier]), nem, len(cases)))
+             " ".join("%s %.0fs" % (n, res[n].wall) for n in FAMILIES[tier]), len(refuted), nem, len(cases)))
 
     t1 = time.time()
     njobs = max(1, min(lib.NCPU, 4))
@@ -371,7 +410,7 @@ def run(prop, tier):
     selftest = []
     kinds_seen = collections.Counter()
     for t in pool:
-        c = corrupt(t, rng)
+        c = corrupt(t, rng, kinds_seen)
         if c is None:
             continue
         kind = c["id"].split("/")[1]
@@ -385,7 +424,7 @@ def run(prop, tier):
                                jobs=1)
     caught = set(r["id"] for r in sval["rejected"])
     missed = [t["id"] for t in selftest if t["id"] not in caught]
-    if missed or not selftest or (strict and len(kinds_seen) < 20):
+    if missed or not selftest or (strict and len(kinds_seen) < 22):
         raise lib.MachineryError("binding self-test: %d corrupted traces were accepted, e.g. %s (kinds exercised: %d)"
                                  % (len(missed), missed[:3], len(kinds_seen)))
     kinds = sorted(kinds_seen)
@@ -431,6 +470,7 @@ def run(prop, tier):
         samples=samples, assumptions=ASSUMPTIONS,
         extra=dict(bounds=dict((n, dict((k, v) for k, v in f.items() if v is not None)) for n, f in FAMILIES[tier].items()),
                    cases_emitted=emitted, cases_replayed=len(cases), driver_stats=stats, model_action_coverage=cov,
+                   code_transcription_refuted=refuted,
                    rejected_events=rejected_events, selftest_corrupted_traces_rejected=len(selftest),
                    selftest_kinds=kinds, invariants_checked_on_model=INVARIANTS, exhaustive=False))
     return verdict.finish(ev)
